@@ -8,7 +8,7 @@ namespace {
 struct GHash { int st = ST_DEAD; size_t len = 0; };
 struct GHmac { int st = ST_DEAD; size_t len = 0; size_t lastkey = 0; };
 struct GHkdf { int st = ST_DEAD; size_t cur = 0; bool exhaust = false; };
-struct GPrng { int st = ST_DEAD; uint64_t counter = 1, limit = 32; uint64_t since = 0; bool system = false; };
+struct GPrng { int st = ST_DEAD; uint64_t counter = 1, limit = 32; uint64_t since = 0; bool system = false; bool after_run = false; };
 
 struct Ctx {
     Rng &r; int armed; bool thorough; bool faults; // faults: short/zero deliveries & OS errors enabled in this run
@@ -250,6 +250,9 @@ Op gen_prng(Ctx &c, GPrng &g, int obj, bool erase_bias, bool sys_only) {
     Op o;
     if (g.st != ST_LIVE) {
         if (x < 86) o = mk(P_INIT, obj); else if (x < 93) o = mk(P_DIRTY, obj); else o = mk(P_FREE, obj);
+    } else if (g.after_run) {   // right after a long run of feeds: the interesting next calls are a reseed or a generate
+        g.after_run = false;
+        o = mk(x < 50 ? P_RESEED : x < 90 ? P_GEN : P_LIMIT, obj);
     } else {
         uint32_t fr = erase_bias ? 12 : 3;
         if (x < 50 - fr) o = mk(P_GEN, obj);
@@ -318,6 +321,7 @@ Op gen_prng(Ctx &c, GPrng &g, int obj, bool erase_bias, bool sys_only) {
             else { static const uint64_t W16[] = {65533, 65534, 65535, 65536, 65537, 70000}; reps = W16[r.below(6)]; if (!c.thorough && r.chance(2, 3)) reps = 255; }
             if (reps > 70000) reps = 70000;
             if (reps > 0) { o.b = reps - 1; g.counter += reps - 1; }
+            if (reps > 200) g.after_run = true;
         }
         break;
     case P_RESEED:
